@@ -24,7 +24,7 @@ class SimAbort(BaseException):
 
 
 class SimThread(object):
-  __slots__ = ('tid', 'name', 'target', 'gate', 'state', 'blocked_on', 'npoints', 'hot_events', 'nhot', 'after',
+  __slots__ = ('tid', 'name', 'target', 'gate', 'state', 'blocked_on', 'npoints', 'hot_events', 'nhot', 'after', 'ident',
                'exc', 'result', 'real', 'events', 'atomic', 'held', 'data')
 
   def __init__(self, tid, name, target):
@@ -42,6 +42,7 @@ class SimThread(object):
     self.events = {}      # k-th point of this thread -> [callable(sim, thread)]
     self.hot_events = {}  # k-th *hot* point of this thread -> [callable]
     self.nhot = 0
+    self.ident = None     # OS thread identifier, set when the thread starts
     self.after = None     # tid that must have ended (OS thread exited) before this thread is created
     self.atomic = 0
     self.held = []        # simulated locks currently held (for probes)
@@ -190,7 +191,10 @@ class ExplicitStrategy(Strategy):
 # ---------------------------------------------------------------------------
 class Sim(object):
 
-  def __init__(self, strategy, tracer=None, max_steps=200000, keep_log=False):
+  def __init__(self, strategy, tracer=None, max_steps=200000, keep_log=False, raw_threads=False):
+    # raw_threads: start the workers with _thread.start_new_thread (as C
+    # extensions and low-level code do): the threading module does not know them
+    self.raw_threads = raw_threads
     self.strategy = strategy
     self.tracer = tracer
     self.max_steps = max_steps
@@ -275,13 +279,17 @@ class Sim(object):
     boot.CURRENT_SIM = self
     try:
       for t in self.threads:
-        if t.after is None:
-          t.real = threading.Thread(target=self._thread_main, args=(t,),
-                                    name='sim-%d' % t.tid, daemon=True)
+        if t.after is None or self.raw_threads:
+          if not self.raw_threads:
+            t.real = threading.Thread(target=self._thread_main, args=(t,),
+                                      name='sim-%d' % t.tid, daemon=True)
           t.state = RUNNABLE
       for t in self.threads:
-        if t.after is None:
-          t.real.start()
+        if t.state is RUNNABLE:
+          if self.raw_threads:
+            _thread.start_new_thread(self._thread_main, (t,))
+          else:
+            t.real.start()
       # every thread is now parked on its gate (or about to be: the gate is
       # already held, so acquire() blocks whenever they get there)
       self.strategy.start(self)
@@ -327,7 +335,8 @@ class Sim(object):
     return started or any(t.state is RUNNABLE for t in self.threads)
 
   def _thread_main(self, t):
-    self._by_ident[_thread.get_ident()] = t
+    t.ident = _thread.get_ident()
+    self._by_ident[t.ident] = t
     t.gate.acquire()
     if self.outcome is not None:
       return
@@ -391,7 +400,7 @@ class Sim(object):
     me = self.cur
     if me is None or me.atomic or self.in_handler:
       return
-    if _thread.get_ident() != me.real.ident:
+    if _thread.get_ident() != me.ident:
       return      # code running on a non-simulated thread
     self.steps += 1
     me.npoints += 1
